@@ -146,6 +146,9 @@ func (c *Ctx) ruleWalkRoot(pkgs ...string) {
 				if c.benignClass(&siteInfo{}, l) != "" {
 					continue
 				}
+				if pkg == "testonly" && c.notTestFileLit(l) {
+					continue
+				}
 				if x, t, _ := typeAssertOK(l); x != nil && strings.HasPrefix(typeStr(t), "annotations.") || (x != nil && typeStr(t) == "*config.Config") {
 					continue
 				}
